@@ -848,8 +848,18 @@ class HelicityDecay(AmpDecay):
             ls, out_sym=out_sym, helicity_inner_full=self.helicity_inner_full
         )
 
-    @functools.lru_cache()
-    def _get_cg_matrix(
+    def _get_cg_matrix(self, ls, out_sym=False, helicity_inner_full=False):
+        # cached per decay object: decays compare equal by particle names only,
+        # which do not determine spins, so the cache must not be shared between objects
+        cache = self.__dict__.setdefault("_cg_matrix_cache", {})
+        key = (ls, out_sym, helicity_inner_full)
+        if key not in cache:
+            cache[key] = self._cal_cg_matrix(
+                ls, out_sym=out_sym, helicity_inner_full=helicity_inner_full
+            )
+        return cache[key]
+
+    def _cal_cg_matrix(
         self, ls, out_sym=False, helicity_inner_full=False
     ):  # CG factor inside H
         """
